@@ -200,6 +200,78 @@ def _copy_value(o, depth=0):
     return c
 
 
+def _targs_key(text):
+    """the template arguments of `Name<a, &ns::b, 3>` (or of the argument list a Func records for its instantiation) as a
+    tuple of bare spellings ('a', 'b', '3'): the two sources spell qualified names differently"""
+    if text is None:
+        return None
+    if '<' in text and text.rstrip().endswith('>'):
+        text = text[text.index('<') + 1: text.rstrip().rindex('>')]
+    parts, cur, d_ = [], [], 0
+    for ch in text:
+        if ch in '<(':
+            d_ += 1
+        elif ch in '>)':
+            d_ -= 1
+        if ch == ',' and d_ == 0:
+            parts.append(''.join(cur))
+            cur = []
+        else:
+            cur.append(ch)
+    parts.append(''.join(cur))
+    out = []
+    for p_ in parts:
+        p_ = p_.strip().lstrip('&').strip()
+        if '<' not in p_ and '(' not in p_:
+            p_ = p_.split('::')[-1]
+        out.append(p_.replace('const ', '').strip())
+    return tuple(out)
+
+
+class MemPtr:
+    """pointer to a data member: the name of the member"""
+
+    def __init__(self, name):
+        self.name = name
+
+    def __eq__(self, o):
+        return isinstance(o, MemPtr) and o.name == self.name
+
+    def __hash__(self):
+        return hash(('memptr', self.name))
+
+    def __repr__(self):
+        return '<&::%s>' % self.name
+
+
+def freeze(v, depth=0):
+    """a hashable picture of a value: an object is the values of its members (members of pointer type: the identity of what they
+    point to), an array the pictures of its cells"""
+    if isinstance(v, AObj):
+        ptrs = getattr(v, 'ptrs', frozenset())
+        items = []
+        for k in sorted(v.attrs, key=str):
+            x = v.attrs[k]
+            if k in ptrs and x is not None and not isinstance(x, (int, str)):
+                items.append((k, ('ptr', x.oid if isinstance(x, AObj) and x.oid else id(x))))
+            else:
+                items.append((k, freeze(x, depth + 1) if depth < 10 else ('id', id(x))))
+        return ('obj', v.cls, tuple(items))
+    if isinstance(v, list):
+        return ('list',) + tuple(freeze(x, depth + 1) for x in v)
+    if isinstance(v, tuple):
+        return tuple(freeze(x, depth + 1) for x in v)
+    if v is None or isinstance(v, (bool, int, str)):
+        return v
+    if isinstance(v, Ref):
+        return ('ref', id(v.box), freeze(v.key) if not isinstance(v.key, (int, str)) else v.key)
+    try:
+        hash(v)
+        return v
+    except TypeError:
+        return ('id', id(v))
+
+
 def cxx_object(lib, cls, depth=0):
     """an abstract object of a C++ class of the library: integer fields 0, pointer fields null, fields of class type
     nested objects of the same kind (their declared integer widths recorded for typed evaluation)"""
@@ -302,6 +374,9 @@ class AEval:
                 return p
             if self.typed and isinstance(p, list):
                 return Ref(p, 0)         # *array: its first element
+        if e.k == 'memfield':
+            o, name = self._memfield(e, env, depth)
+            return Ref(o.attrs, name)
         raise AnalysisError('abstract evaluation: %s is passed by reference but is not a storage cell (%s)' % (show(e), e.loc))
 
     def _global_object(self, q):
@@ -379,8 +454,65 @@ class AEval:
 
     # -- statements ---------------------------------------------------------------------------
     def block(self, stmts, env, depth):
-        for s in stmts:
-            self.stmt(s, env, depth)
+        dl = env.get('\x00dtors')
+        mark = len(dl) if dl else 0
+        try:
+            for s in stmts:
+                self.stmt(s, env, depth)
+        except (_Return, _Break, _Continue):
+            if env.get('\x00dtors'):
+                self._unwind(env, mark, depth)
+            raise
+        if env.get('\x00dtors'):
+            self._unwind(env, mark, depth)
+
+    def _unwind(self, env, mark, depth):
+        """leaving a block: the destructors of the objects declared in it run, last declared first (a scope guard writes back
+        what it holds)"""
+        dl = env['\x00dtors']
+        while len(dl) > mark:
+            obj, fn = dl.pop()
+            self.call_function(fn.f.name if hasattr(fn, 'f') else '~', [], depth + 1, recv=obj, chosen=fn)
+
+    def _dtor_of(self, cls, inst=None):
+        """the user-written destructor of a class, if it has one with a body that does something"""
+        mod = self.module
+        if mod is None or not hasattr(mod, 'funcs') or not cls:
+            return None
+        cache = mod.__dict__.setdefault('_dtors', {})
+        if (cls, inst) in cache:
+            return cache[(cls, inst)]
+        if inst is not None:
+            short = cls.split('::')[-1]
+            found = None
+            for f_ in mod.overloads.get('%s::~%s/0' % (cls, short), []):
+                if _targs_key(f_.f.inst) == inst and f_.body:
+                    found = f_
+            cache[(cls, inst)] = found
+            return found
+        bare, d_ = [], 0
+        for ch in cls:
+            if ch == '<':
+                d_ += 1
+            elif ch == '>':
+                d_ -= 1
+            elif d_ == 0:
+                bare.append(ch)
+        found = None
+        for c_ in (cls, ''.join(bare)):
+            short = c_.split('::')[-1]
+            cands = [mod.funcs.get('%s::~%s/0' % (c_, short))]
+            if '::' not in c_:
+                # a class named without its scope (a struct local to a function, a nested class named from inside its owner)
+                cands += [f_ for q_, f_ in mod.funcs.items() if q_.endswith('::%s::~%s/0' % (short, short))]
+            for f_ in cands:
+                if f_ is not None and f_.body:
+                    found = f_
+                    break
+            if found:
+                break
+        cache[(cls, inst)] = found
+        return found
 
     def stmt(self, s, env, depth):
         self.steps += 1
@@ -393,7 +525,7 @@ class AEval:
                 cur = self.ev(a[0], env, depth)
                 v = self.binop(a[2][:-1], cur, v, s.loc)
             self.store(a[0], v, env, depth)
-        elif k == 'decl' and self.typed and a[2] is not None and _mutable_ref(a[1]):
+        elif k == 'decl' and self.typed and a[2] is not None and _mutable_ref(a[1]) and not ((a[1] or '').rstrip().endswith('&&') and self._is_temporary(a[2])):
             # T& x = <lvalue>: the name designates the storage of the initialiser
             it = self._ity((a[1] or '').rstrip()[:-1])
             env[a[0]] = self.ref_of(a[2], env, depth)
@@ -431,6 +563,10 @@ class AEval:
                 env['\x00ptr:' + a[0]] = True
             else:
                 env.pop('\x00ptr:' + a[0], None)
+                if self.typed and a[1] and not a[1].rstrip().endswith('&') and isinstance(env[a[0]], AObj) and env[a[0]].cls:
+                    d_ = self._dtor_of(env[a[0]].cls, getattr(env[a[0]], 'inst', None))
+                    if d_ is not None:
+                        env.setdefault('\x00dtors', []).append((env[a[0]], d_))     # runs when the enclosing block is left
         elif k == 'expr':
             self.ev(a[0], env, depth)
         elif k == 'if':
@@ -504,7 +640,67 @@ class AEval:
         else:
             raise AnalysisError('abstract evaluation: statement kind %s at %s' % (k, s.loc))
 
+    @staticmethod
+    def _is_temporary(e):
+        while e.k == 'cast':
+            e = e.a[2]
+        return e.k in ('init', 'call', 'const', 'bin', 'cond', 'un')
+
+    def _memfield(self, e, env, depth):
+        """object.*pointer / pointer->*pointer: the object and the name of the member"""
+        o = self.ev(e.a[0], env, depth)
+        for _ in range(3):
+            if isinstance(o, Ref):
+                o = o.get()
+        if isinstance(o, list) and o and isinstance(o[0], AObj):
+            o = o[0]
+        p = self.ev(e.a[1], env, depth)
+        if o is None:
+            raise Raised('a null pointer is dereferenced (->*)', e.loc)
+        if not isinstance(o, AObj) or not isinstance(p, MemPtr):
+            raise AnalysisError('abstract evaluation: %r .* %r at %s' % (o, p, e.loc))
+        if p.name not in o.attrs:
+            raise AnalysisError('abstract evaluation: attribute %s of %s is not part of the abstraction (%s)' % (p.name, o.oid, e.loc))
+        return o, p.name
+
+    def _construct(self, obj, cls, args, depth, loc):
+        """run the constructor of `cls` that takes `args` on `obj`; False when the class has no written constructor of that arity"""
+        from .cxx import int_type
+        lib = self.module.lib
+        ctors = [c for c in lib.fns(cls + '::' + cls.split('::')[-1]) if len(c.params) == len(args)
+                 and not (len(c.params) == 1 and cls.split('::')[-1] in (c.params[0][1] or ''))]
+        if not ctors:
+            return False
+        if len(ctors) > 1:
+            def fits(c_):
+                for (pn_, pt_), v_ in zip(c_.params, args):
+                    pt_ = pt_ or ''
+                    if isinstance(v_, AObj) and v_.cls:
+                        if not _re_word(v_.cls.split('::')[-1].split('<')[0], pt_):
+                            return False
+                    elif isinstance(v_, bool) or isinstance(v_, int):
+                        if int_type(pt_.replace('&', '').strip()) is None:
+                            return False
+                    elif v_ is None or isinstance(v_, (list, Ref)):
+                        if '*' not in pt_:
+                            return False
+                return True
+            good = [c_ for c_ in ctors if fits(c_)]
+            if good:
+                ctors = good
+        from types import SimpleNamespace
+        c = ctors[0]
+        ns = SimpleNamespace(params=[p for p, _t in c.params], ptypes=[t for _p, t in c.params], body=c.body, loc=c.loc, byref=())
+        self.call_function(c.name, args, depth + 1, recv=obj, chosen=ns)
+        return True
+
     def store(self, tgt, v, env, depth):
+        if tgt.k == 'memfield':
+            o, name = self._memfield(tgt, env, depth)
+            if self.typed and getattr(o, 'ftypes', None):
+                v = self._wrap(v, o.ftypes.get(name))
+            o.attrs[name] = self._by_value(tgt, v)
+            return
         if tgt.k == 'var':
             v = self._wrap(v, env.get('\x00ty:' + tgt.a[0])) if self.typed else v
             cur = env.get(tgt.a[0])
@@ -680,6 +876,18 @@ class AEval:
             return env['self']
         if k == 'memfn':
             return FnRef(a[0], a[1])             # pointer to a member function (name, number of parameters)
+        if k == 'memptr':
+            return MemPtr(a[0])                  # pointer to a data member
+        if k == 'memfield':
+            o, name = self._memfield(e, env, depth)
+            return o.attrs[name]
+        if k == 'delegate':
+            # a delegating constructor: another constructor of the class runs on this object
+            args = [self.ev(x, env, depth) for x in a[1]]
+            cls = (env['self'].cls or a[0]) if isinstance(env.get('self'), AObj) else a[0]
+            if not self._construct(env['self'], cls.replace('const ', '').strip(), args, depth, e.loc):
+                raise AnalysisError('abstract evaluation: delegating constructor %s at %s: no constructor with %d parameters' % (a[0], e.loc, len(args)))
+            return None
         if k == 'opaque' and a and a[0] == 'countof' and len(a) > 1:
             v = self.ev(a[1], env, depth)        # sizeof(array) / sizeof(array[0]) of an array whose bound is its initialiser list
             if isinstance(v, Ref):
@@ -836,7 +1044,12 @@ class AEval:
                         flds = lib.fields(''.join(bare))
                         if flds == [] and not args and lib.classes.get(''.join(bare)):
                             return AObj({}, cls=cls)        # keeps the arguments of the instantiation in its class name
+                        inst_key = _targs_key(cls)
                         cls = ''.join(bare)
+                        for c_ in lib.classes.get(cls, []):
+                            if not c_.get('_primary') and _targs_key(c_.get('_inst')) == inst_key:
+                                flds = lib.fields(cls, inst=c_.get('_inst'))     # member types of this instantiation
+                                break
                     except Exception:
                         flds = None
                 if flds:
@@ -847,6 +1060,11 @@ class AEval:
                     obj.ptrs = frozenset(n for n, t, _x in flds if t and '*' in t)
                     ctors = [c for c in lib.fns(cls + '::' + cls.split('::')[-1]) if len(c.params) == len(args)
                              and not (len(c.params) == 1 and cls.split('::')[-1] in (c.params[0][1] or ''))]
+                    if '<' in a[0]:
+                        obj.inst = _targs_key(a[0].replace('const ', '').strip())
+                        mine = [c for c in ctors if _targs_key(c.inst) == obj.inst]
+                        if mine:
+                            ctors = mine
                     if ctors:
                         from types import SimpleNamespace
                         if len(ctors) > 1:
@@ -877,7 +1095,13 @@ class AEval:
                             obj.attrs[n] = self._wrap(v, int_type(t))
                         return obj
                     if not args:
-                        return obj          # implicitly default-constructed
+                        # implicitly default-constructed: members with an initialiser in the class start with it
+                        from .cxx import Lowerer
+                        for n, t, node in flds:
+                            ini = [y for y in node.get('inner', []) if 'Comment' not in y.get('kind', '') and 'Attr' not in y.get('kind', '')]
+                            if ini:
+                                obj.attrs[n] = self._wrap(self.ev(Lowerer(lib).expr(ini[-1]), {'self': obj}, depth + 1), int_type(t))
+                        return obj
             raise AnalysisError('abstract evaluation: display %s at %s' % (a[0], e.loc))
         if k == 'call':
             return self.call(e, env, depth)
